@@ -28,6 +28,15 @@ type InitSpec struct {
 	FanOut  int     `json:"fan_out,omitempty"`
 	Shape   []int   `json:"shape"`
 	Tracked bool    `json:"tracked,omitempty"` // RandU / RandN config
+	// ShapeNil: a rank-0 shape is passed as a nil slice instead of an empty one
+	ShapeNil bool `json:"shape_nil,omitempty"`
+}
+
+func (s InitSpec) shapeArg() []int {
+	if len(s.Shape) == 0 && s.ShapeNil {
+		return nil
+	}
+	return ref.Cp(s.Shape)
 }
 
 // C18Case: specs are called in the given order (indexes into Specs); every call's sample is
@@ -75,6 +84,9 @@ func genC18(t *rapid.T) C18Case {
 			s.Shape = rapid.SampledFrom([][]int{{4096}, {64, 64}, {16, 16, 16}, {8, 8, 8, 8}, {2048, 2}, {1, 4096}}).Draw(t, "bigshape")
 		} else {
 			s.Shape = prog.DrawShapeN(t, 0, 4, 8, 256, false)
+			if len(s.Shape) == 0 {
+				s.ShapeNil = rapid.Bool().Draw(t, "shapenil")
+			}
 		}
 		c.Specs = append(c.Specs, s)
 	}
@@ -237,13 +249,13 @@ func checkC18(c C18Case) *Failure {
 		wantTracked := true
 		switch s.Kind {
 		case "randu":
-			x, err = tensor.RandU(ref.Cp(s.Shape), s.A, s.B, lib.Conf(s.Tracked))
+			x, err = tensor.RandU(s.shapeArg(), s.A, s.B, lib.Conf(s.Tracked))
 			wantTracked = s.Tracked
 		case "randn":
-			x, err = tensor.RandN(ref.Cp(s.Shape), s.A, s.B, lib.Conf(s.Tracked))
+			x, err = tensor.RandN(s.shapeArg(), s.A, s.B, lib.Conf(s.Tracked))
 			wantTracked = s.Tracked
 		default:
-			x, err = inits[k].Init(ref.Cp(s.Shape))
+			x, err = inits[k].Init(s.shapeArg())
 		}
 		if err != nil {
 			return failf("%s rejected shape %v: %v", s.Kind, s.Shape, err)
